@@ -19,7 +19,7 @@ MCNext ==
   \/ (LStart \/ LTop \/ LVisit \/ LLaunch \/ LWgWait \/ LHandler \/ LHCreated) /\ Mv("L")
   \/ LHExit /\ Mv("PH")
   \/ \E s \in Steps :
-       \/ (WBegin(s) \/ WExec(s) \/ WStart(s) \/ WPost(s) \/ WRetryWake(s)) /\ Mv("W:" \o ToString(s))
+       \/ (WBegin(s) \/ WExec(s) \/ WStart(s) \/ WPost(s) \/ WRetryWake(s) \/ WRepeatWake(s)) /\ Mv("W:" \o ToString(s))
        \/ WTail(s) /\ Mv("T:" \o ToString(s))
        \/ WExit(s) /\ Mv("P:" \o ToString(s) \o (IF res'[s] = "ok" THEN ":ok" ELSE ":fail"))
   \/ SCall /\ Mv("stop")
@@ -145,6 +145,16 @@ LiveStop ==
 LiveLimit ==
   {[Base EXCEPT !.deps = d, !.maxActive = m, !.rlimit = rl]
      : d \in {F({}), Join}, m \in 1..N, rl \in {F(0), Only(1, 1, 0)}}
+
+\* C15 with repeating steps: a repeating step (a leaf: it never ends by itself) next to ordinary steps under a limit; the
+\* repeating step may fail an iteration and go on (continueOn.failure); the run is ended by a stop request
+RepeatLimit ==
+  {[Base EXCEPT !.deps = F({}), !.stop = TRUE, !.kill = k, !.obeys = ob, !.maxActive = m, !.repeat = Only(r, TRUE, FALSE),
+                !.contF = cf, !.handlers = h, !.doneChan = dc]
+     : r \in {1, N}, k \in {FALSE}, ob \in {F(TRUE), F(FALSE)}, m \in {0, 1, 2},
+       cf \in {F(FALSE), F(TRUE)}, h \in {{"cancel", "exit"}}, dc \in BOOLEAN}
+Lead_C15_Limit == Lead(C15_Limit)
+Lead_C08_Labels == Lead(C08_FinalLabels)
 
 ExecBound == \A s \in Steps : execs[s] <= 3
 =============================================================================
